@@ -67,6 +67,43 @@ def env():
     return S
 
 
+_PRIVATE = {}
+CUSTOM_BC = [("H", 0), ("O", 0), ("C", 0), ("Fe", 0), ("Ni", 58), ("Si", 0), ("Na", 0), ("Cl", 0)]
+
+
+def penv():
+    """A private, customised PeriodicTable (one per process) with its own reference calculator.
+    Built like doc/sphinx/guide/customizing.rst: mass and density initialised on the private
+    table and rescaled to H[1] = 1, then the neutron data loaded on it, and the scattering
+    length of a few atoms changed (b_c and the real part of b_c_complex together), so that any
+    mix-up with the public table shows in the numbers."""
+    if _PRIVATE:
+        return _PRIVATE
+    S = env()
+    from periodictable import core, mass, density, nsf
+    pub = S["table"]
+    pub.H.neutron.b_c                      # the public neutron data are loaded first
+    T = core.PeriodicTable("c03-private-H=1")
+    mass.init(T)
+    density.init(T)
+    scale = pub.H[1].mass
+    for el in T:
+        el._mass /= scale
+        if getattr(el, "_density", None) is not None:
+            el._density /= scale
+        for iso in el:
+            iso._mass /= scale
+    nsf.init(T)
+    for sym, a in CUSTOM_BC:
+        at = T.symbol(sym)
+        at = at[a] if a else at
+        n = at.neutron
+        n.b_c = n.b_c * 1.5
+        n.b_c_complex = complex(n.b_c, n.b_c_complex.imag)
+    _PRIVATE.update(table=T, ref=Ref(T), pool=Pool(T), scale=scale)
+    return _PRIVATE
+
+
 def _probe_axis(S):
     """Which reading of 'interpolated' the tree under test uses (documentation is
     silent): linear in wavelength or linear in energy.  One choice per run."""
@@ -240,13 +277,14 @@ def wl_rel(form):
 
 # ----------------------------------------------------------------------
 # building the library arguments
-def build_compound(c):
-    """(object for the library, {(Z,A,charge): float count}, specs, description)"""
+def build_compound(c, table=None):
+    """(object for the library, {(Z,A,charge): float count}, specs, description); dict
+    compounds are keyed by the atoms of *table* (default: the public table)"""
     E = env()
     if c["kind"] == "dict":
         obj, comp = {}, {}
         for spec, n in c["atoms"]:
-            atom = resolve(E["table"], spec)
+            atom = resolve(table if table is not None else E["table"], spec)
             assert atom not in obj
             obj[atom] = n
             comp[spec_key(E["pool"], spec)] = float(n)
@@ -310,19 +348,49 @@ def close(got, want, floor, rel=REL):
     return abs(got - want) <= rel * abs(want) + floor      # False for NaN
 
 
-def compare_outputs(prefix, got, comp, density, lams, case, tag, outputs=OUTPUTS, axis=None, rel=REL):
-    """got: dict output -> value/array (already shape checked); reference at each wavelength."""
+F32_DELTA = 5e-7      # a float32 energy/wavelength moves the point of evaluation by a few float32 ulps
+
+
+def compare_outputs(prefix, got, comp, density, lams, case, tag, outputs=OUTPUTS, axis=None, rel=REL, ref=None):
+    """got: dict output -> value/array (already shape checked); reference at each wavelength.
+
+    rel > REL marks the np.float32 argument form: the library converts and interpolates in float32,
+    so for compounds with an energy dependent atom it may evaluate anywhere within F32_DELTA
+    (relative) of the exact wavelength.  An output is then accepted inside [min, max] of the
+    reference over that interval (its ends, the exact point and every table node inside it: the
+    reference is piecewise linear), widened by rel x |value| and rel x the scale of the operands
+    (not of the possibly cancelling sum).  Every other case: |got - ref| <= rel |ref| + floor."""
     E = env()
-    np, R = E["np"], E["ref"]
+    np = E["np"]
+    R = ref or E["ref"]
     axis = axis or E["axis"]
     flat = dict((o, np.asarray(got[o], dtype=float).reshape(-1)) for o in outputs)
+    wide = rel > REL and any(R.is_tabulated(z, a) for z, a, c in comp)
     for i, lam in enumerate(lams):
         v, f = R.scattering(comp, density, lam, axis)
+        pts = [(v, f)]
+        if wide:
+            lo, hi = lam * (1 - F32_DELTA), lam * (1 + F32_DELTA)
+            extra = [lo, hi]
+            for z, a, c in comp:
+                if R.is_tabulated(z, a):
+                    extra += [x for x in R.node_wavelengths(z, a) if lo < x < hi]
+            pts += [R.scattering(comp, density, x, axis) for x in extra]
         for o in outputs:
             g = float(flat[o][i])
-            ok = close(g, v[o], f[o], rel)
-            if o == "sld_inc":
-                ok = ok and g >= 0 and close(sigma_i_of_sld_inc(g, v["N"]), v["sigma_i"], f["sigma_i"], 2 * rel)
+            if wide:
+                k = rel / 1e-13                      # floors are 1e-13 x operand scale
+                vals = [p[0][o] for p in pts]
+                tol = rel * max(abs(x) for x in vals) + k * max(p[1][o] for p in pts)
+                ok = min(vals) - tol <= g <= max(vals) + tol
+                if o == "sld_inc":
+                    sv = [p[0]["sigma_i"] for p in pts]
+                    st_ = 2 * rel * max(sv) + k * max(p[1]["sigma_i"] for p in pts)
+                    ok = ok and g >= 0 and min(sv) - st_ <= sigma_i_of_sld_inc(g, v["N"]) <= max(sv) + st_
+            else:
+                ok = close(g, v[o], f[o], rel)
+                if o == "sld_inc":
+                    ok = ok and g >= 0 and close(sigma_i_of_sld_inc(g, v["N"]), v["sigma_i"], f["sigma_i"], 2 * rel)
             if not ok:
                 raise Violation("%s:%s:%s" % (prefix, o, tag),
                                 "%s = %r, documented equations give %r at wavelength %r A (density %r)"
